@@ -19,6 +19,9 @@ AGG = "cminx.aggregator"
 
 
 # ----------------------------------------------------------------------
+from .. import roles as _roles
+
+
 def rule_decode(rep: Report, repo: Repo, rule: str) -> None:
     rep.rule(rule, "the character stream handed to the lexer is the input file decoded as UTF-8, unaltered: FileStream(file, "
                    "encoding='utf-8'), or InputStream(<text read from the file with encoding utf-8>) with no transformation in between")
@@ -26,7 +29,7 @@ def rule_decode(rep: Report, repo: Repo, rule: str) -> None:
     ci = repo.cls(doc_cls)
     where = f"cminx.documenter:{doc_cls}.__init__"
     init = ci.methods.get("__init__")
-    lex_calls = [n for n in ast.walk(ci.node) if isinstance(n, ast.Call) and call_name(n).split(".")[-1] == "CMakeLexer"]
+    lex_calls = [n for n in ast.walk(ci.node) if isinstance(n, ast.Call) and call_name(n).split(".")[-1] in _roles.recognizer_names(repo, "CMakeLexer")]
     if not lex_calls or init is None:
         raise AnalysisError("anchor vanished: Documenter does not construct CMakeLexer")
     n = 0
@@ -265,6 +268,18 @@ def rule_clean_parameters(rep: Report, repo: Repo, rule: str, r_uniform: Optiona
                       witness="#  two spaces  /  #text")
         else:
             rep.check(not space_true, rule, where, case + " [no drop]", "the optional single space is not removed although the guard holds")
+            # ... and the only reasons for keeping the first character are "it is not a space" and "the line is empty"
+            space_false = any(((c[0] == "cmp" and c[1] == "==" and c[3] == const(" ") and c[2][0] == "sub" and c[2][2] == const(0)) or
+                               (c[0] == "truthy" and c[1][0] == "call" and c[1][1][0] == "attr" and c[1][1][2] == "startswith"
+                                and c[1][2] == (const(" "),))) and not v for c, v in oc["conds"])
+            empty = any((c[0] in ("truthy", "nonempty") and not v and not (c[1][0] == "call" and c[1][1][0] == "attr"
+                                                                          and c[1][1][2] == "startswith"))
+                        or (c[0] == "lencmp" and not v) for c, v in oc["conds"])
+            rep.check(space_false or empty, rule, where, case + " [kept first character is no space]",
+                      "a line keeps its first character although nothing established that it is not the optional space: the space is "
+                      "removed from some lines only (depending on something else than the line's first character), which shifts those "
+                      "lines against the others and against the generated note / field lines of the entry",
+                      witness="a doccomment body written without '#' leaders, each line starting with one blank")
         # 4. nothing else
         extra = [n for n in names if n not in ("slice", "lstrip")]
         rep.check(not extra, rule, where, case + " [no other surgery]",
